@@ -7,7 +7,7 @@ import json, os, subprocess, sys
 
 TPL = """You are a software engineer doing fault seeding on the Python library `lasio` (a reader/writer for LAS well-log files). You have your OWN scratch git worktree of the library at /tmp/wt/@ID@ (work ONLY there and in /tmp/wt/@ID@_out; do not read or touch /repo, /verif or any other directory — in particular do not look at anything under /verif). Python with the library's dependencies: `/venv/bin/python` (run things as `cd /tmp/wt/@ID@ && PYTHONPATH=/tmp/wt/@ID@ /venv/bin/python …`).
 
-The property you must break is in /tmp/wt/@ID@_prop.txt (read it). TASK: make a small, realistic change to the library source (under /tmp/wt/@ID@/lasio/) — the kind of regression a maintainer could plausibly introduce in a refactoring or "improvement" — such that (1) the library still imports and the EXISTING test suite still passes exactly as before: run `cd /tmp/wt/@ID@ && PYTHONPATH=/tmp/wt/@ID@ /venv/bin/python -m pytest -q -p no:cacheprovider -x tests -k "not chardet and not github and not url and not vcs and not test_data_characters_types and not test_write_changed_file" 2>&1 | tail -3` before AND after your change and confirm the same number of tests pass (those deselected ones fail for unrelated reasons: no network etc.); (2) the property is violated; (3) the violation needs something SPECIFIC to manifest — @HINT@ — NOT something that ordinary use (the common path, the example files, default options) would expose at once. Prefer a subtle off-by-one, a boundary condition, a condition that is true for all inputs the tests use, or two cooperating sites that each look fine alone. Where to look: @AVOID@.
+The property you must break is in /tmp/wt/@ID@_prop.txt (read it). TASK: make a small, realistic change to the library source (under /tmp/wt/@ID@/lasio/) — the kind of regression a maintainer could plausibly introduce in a refactoring or "improvement" — such that (1) the library still imports and the EXISTING test suite still passes exactly as before: run `cd /tmp/wt/@ID@ && PYTHONPATH=/tmp/wt/@ID@ /venv/bin/python -m pytest -q -p no:cacheprovider -x tests -k "not chardet and not github and not url and not vcs and not test_data_characters_types and not test_write_changed_file" 2>&1 | tail -3` before AND after your change and confirm the same number of tests pass. NEVER use `git stash` (stashes are shared by all worktrees of the repository and collide with other engineers); to test the unchanged tree use `git diff > patch; git checkout .; ...; git apply patch` (those deselected ones fail for unrelated reasons: no network etc.); (2) the property is violated; (3) the violation needs something SPECIFIC to manifest — @HINT@ — NOT something that ordinary use (the common path, the example files, default options) would expose at once. Prefer a subtle off-by-one, a boundary condition, a condition that is true for all inputs the tests use, or two cooperating sites that each look fine alone. Where to look: @AVOID@.
 
 DELIVERABLES in /tmp/wt/@ID@_out/: `patch.diff` (output of `git -C /tmp/wt/@ID@ diff`), `demo.py` — a small self-contained program run as `PYTHONPATH=<lasio tree> /venv/bin/python demo.py` that exits with status 1 and prints what went wrong when run against the changed tree, and exits 0 against the unchanged tree (`git stash` / `git stash pop` in your worktree to check both), and `meta.json` with keys `property` ("@PROP@"), `summary` (one sentence: what was changed), `needs` (what specific input/sequence/option is needed for it to manifest), `ran` (the commands you ran and their outcome, incl. the pytest pass counts before/after). Do not commit anything. Leave your change applied in the worktree. Your final answer: the summary, what it needs to manifest, and the pytest counts.
 """
